@@ -27,6 +27,7 @@ type vfReco struct {
 	Seq     bool // streams are written and closed one after the other while everything is still queued
 	Big     bool // messages large enough to stay queued behind cwnd when the stream is closed
 	PR      bool // the streams are partially reliable (no retransmission): a lost tail is abandoned, not re-sent
+	Outage  bool // everything is lost for 70 s after the streams were closed (the reconfig timer has no retry limit)
 	Base    [2]uint32
 }
 
@@ -168,6 +169,14 @@ func vfRunReco(t *testing.T, tr *vfTrace, x vfReco) bool {
 				// a write after Close must be rejected
 				w.write(0, sid, 5, 51)
 			}
+			if x.Outage {
+				for t0 := time.Now(); time.Since(t0) < 70*time.Second; {
+					for _, pk := range w.pending(-1) {
+						w.drop(pk.id)
+					}
+					w.tick(5 * time.Second)
+				}
+			}
 			settle(120 * time.Second)
 		}
 		w.heal(100 * time.Second)
@@ -232,6 +241,20 @@ func init() {
 							t.Fatalf("scenario %s hung", x.Label)
 						}
 					}
+				}
+			}
+		}
+		// a long outage right after the close: RE-CONFIG requests keep being retransmitted until the path heals
+		for _, nstr := range []int{1, 2} {
+			for _, il := range []bool{false, true} {
+				k++
+				if k%nshards != shard {
+					continue
+				}
+				x := vfReco{Label: fmt.Sprintf("reconfig-outage-s%d-il%v#%d", nstr, il, k), NStr: nstr, NMsg: 2, Cycles: 2, IL: il, Outage: true,
+					Base: [2]uint32{uint32(k * 104729), uint32(0) - uint32(k%7)}}
+				if vfRunReco(t, tr, x) {
+					t.Fatalf("scenario %s hung", x.Label)
 				}
 			}
 		}
